@@ -332,8 +332,10 @@ func (d *Datastore) Subscribe(req *sdcpb.SubscribeRequest, stream sdcpb.DataServ
 	// start periodic gets, TODO: optimize using cache RPC
 	wg := new(sync.WaitGroup)
 	wg.Add(len(req.GetSubscription()))
-	errCh := make(chan error, 1)
+	// every subscription goroutine reports at most one error, make sure none of them blocks on it
+	errCh := make(chan error, len(req.GetSubscription()))
 	doneCh := make(chan struct{})
+	doneOnce := new(sync.Once)
 	for _, subsc := range req.GetSubscription() {
 		go func(subsc *sdcpb.Subscription) {
 			ticker := time.NewTicker(time.Duration(subsc.GetSampleInterval()))
@@ -350,7 +352,7 @@ func (d *Datastore) Subscribe(req *sdcpb.SubscribeRequest, stream sdcpb.DataServ
 					err := d.doSubscribeOnce(ctx, subsc, stream)
 					if err != nil {
 						errCh <- err
-						close(doneCh)
+						doneOnce.Do(func() { close(doneCh) })
 						return
 					}
 				}
